@@ -433,5 +433,95 @@ func c03(r *mon.Run) {
 			}
 			t.Nontrivial("rep:" + spellings[0] + strconv.Itoa(i%len(repDocs)))
 		}})
+	// long runs of one binary operator (and of mixed ones): a run of n operands groups to the left however long it is - the same
+	// syntax tree as the fully parenthesised spelling, and the value the grouping gives on operands that are all false-like
+	runOps := []string{"||", "&&", "|", "==", "!=", "<", ".", "||&&", "&&||", "|||"}
+	runLens := []int{2, 3, 4, 5, 6, 7, 8, 9, 10, 11, 12, 15, 16, 17, 31, 32, 33, 63, 64, 65, 100, 129}
+	runDoc := docs.J(`{"p":"","q":[],"r":{},"s":null,"t":false,"u":0,"a":{"a":{"a":{"a":1}}}}`)
+	runNames := []string{"p", "q", "r", "s", "q", "p", "r", "t"}
+	ws = append(ws, mon.Workload{Name: "long-runs-of-one-operator", N: len(runOps) * len(runLens) * 3, Batch: 50,
+		Do: func(i int, t *mon.Tally) {
+			op, n, last := runOps[i/3/len(runLens)], runLens[i/3%len(runLens)], []string{"t", "u", "s"}[i%3]
+			var tree *gen.Expr
+			for k := 0; k < n; k++ {
+				name := runNames[k%len(runNames)]
+				if k == n-1 {
+					name = last
+				}
+				if op == "." {
+					name = "a"
+				}
+				leaf := gen.Field(name)
+				if tree == nil {
+					tree = leaf
+					continue
+				}
+				o := op
+				switch op {
+				case "||&&":
+					o = []string{"||", "&&"}[k%2]
+				case "&&||":
+					o = []string{"&&", "||"}[k%2]
+				case "|||":
+					o = []string{"|", "||", "||"}[k%3]
+				}
+				switch o {
+				case "||":
+					tree = gen.Or(tree, leaf)
+				case "&&":
+					// (&& binds tighter than ||: in a mixed run the tree built here is the left-to-right one only where the table says so; the
+					// speller parenthesises the rest, which is what makes the two spellings one tree)
+					tree = gen.And(tree, leaf)
+				case "|":
+					tree = gen.Pipe(tree, gen.Current())
+				case ".":
+					tree = gen.Chain(tree, gen.StField("a"))
+				default:
+					tree = gen.Cmp(o, tree, leaf)
+				}
+			}
+			c03Structural(r, t, "long-runs-of-one-operator", i, tree)
+			cx := &caseCtx{r, t, "long-runs-of-one-operator", i}
+			cx.runBoth(tree, gen.Spell(tree), runDoc)
+			t.Nontrivial("run:" + strconv.Itoa(i))
+		}})
+	// a syntax tree belongs to whoever asked for it: parsing the next expression on the same Parser does not change a tree handed
+	// out earlier (every ordered pair of 60 small operator trees, the first tree rendered again after the second parse)
+	pairN := 60
+	ws = append(ws, mon.Workload{Name: "syntax-trees-handed-out-earlier-stay-what-they-were", N: pairN * pairN, Batch: 200,
+		Do: func(i int, t *mon.Tally) {
+			t1 := small.At(((i / pairN) * 7919) % small.Len())
+			t2 := small.At(((i%pairN)*104729 + 13) % small.Len())
+			e1, e2 := gen.Spell(t1), gen.Spell(t2)
+			want1, o1 := parseSexpr(gen.SpellFull(t1))
+			t.Eval()
+			if o1.Panicked || o1.Err != nil {
+				return // (reported by the structural workload)
+			}
+			var got1, got1later, got2 string
+			o := mon.Guard(func() (interface{}, error) {
+				p := jmespath.NewParser()
+				a1, err := p.Parse(e1)
+				if err != nil {
+					return nil, err
+				}
+				got1 = jmespath.VerifSexpr(a1)
+				a2, err := p.Parse(e2)
+				if err != nil {
+					return nil, err
+				}
+				got2 = jmespath.VerifSexpr(a2)
+				_, _ = p.Parse("a[")
+				got1later = jmespath.VerifSexpr(a1)
+				return nil, nil
+			})
+			want2, _ := parseSexpr(gen.SpellFull(t2))
+			if o.Panicked || o.Err != nil || got1 != want1 || got2 != want2 || got1later != want1 {
+				r.Violate(&mon.Violation{Workload: "syntax-trees-handed-out-earlier-stay-what-they-were", Index: i, API: "Parser.Parse", Expr: e1 + "   then   " + e2,
+					Expected: "the first tree, rendered again after the second parse: " + want1 + "; the second: " + want2, Observed: "first at once: " + got1 + "; first later: " + got1later + "; second: " + got2 + " " + o.String(), Class: "a syntax tree handed out earlier changed (or a reused Parser groups differently)"})
+				return
+			}
+			t.Nontrivial("pair:" + strconv.Itoa(i))
+		}})
 	r.Exec(ws...)
 }
